@@ -166,16 +166,45 @@ impl Re {
     }
     /// through the PUBLIC api of the crate
     fn build(&self) -> NFA<u64> {
+        /// operands; a repeated operand is built once and CLONED (as the decoder does with `hex.clone()`,
+        /// `size.clone()`), so that `merge_states` renumbers clones of one automaton
+        fn operands(es: &[Re]) -> Vec<NFA<u64>> {
+            let mut built: Vec<NFA<u64>> = Vec::with_capacity(es.len());
+            for (i, e) in es.iter().enumerate() {
+                match es[..i].iter().position(|f| f == e) {
+                    Some(j) => {
+                        let copy = built[j].clone();
+                        built.push(copy)
+                    }
+                    None => built.push(e.build()),
+                }
+            }
+            built
+        }
         match self {
-            Lit(s) => NFA::from(std::str::from_utf8(s).expect("literals are ASCII")),
+            Lit(s) => NFA::from(std::str::from_utf8(s).expect("literals are UTF-8")),
+            // the two helper constructors of the public API
+            Pred(rs) if rs.as_slice() == [(b'0', b'9')] => NFA::digit(),
+            Plus(e) if matches!(&**e, Pred(rs) if rs.as_slice() == [(b'0', b'9')]) => NFA::number(),
             Pred(rs) => {
                 let rs = rs.clone();
                 NFA::predicate(move |b| in_ranges(&rs, b))
             }
-            Seq(es) if es.len() == 2 => es[0].build() + es[1].build(),
-            Seq(es) => NFA::sequence(es.iter().map(|e| e.build())),
-            Alt(es) if es.len() == 2 => es[0].build() | es[1].build(),
-            Alt(es) => NFA::choice(es.iter().map(|e| e.build())),
+            // two operands: the `+` / `|` operators or the n-ary functions, depending on the shape
+            Seq(es) if es.len() == 2 && es[0].nodes() % 2 == 0 => {
+                let mut ops = operands(es);
+                let b = ops.pop().unwrap();
+                let a = ops.pop().unwrap();
+                a + b
+            }
+            Seq(es) => NFA::sequence(operands(es)),
+            Alt(es) if es.len() == 2 && es[0].nodes() % 2 == 0 => {
+                let mut ops = operands(es);
+                let b = ops.pop().unwrap();
+                let a = ops.pop().unwrap();
+                a | b
+            }
+            Alt(es) => NFA::choice(operands(es)),
             Opt(e) => e.build().optional(),
             Plus(e) => e.build().some(),
             Star(e) => e.build().many(),
@@ -991,6 +1020,28 @@ impl Ctx {
         let got = guarded(|| (dfa.matches(w.iter().copied()), observe(dfa, w)));
         let expected = oracle_matches(lang, w);
         let input = json!({"re": src, "word": hex(w)});
+        // `transition_many` is the iteration of `transition` from `start()` (same state or both dead)
+        let stepped = guarded(|| {
+            let mut st = Some(dfa.start());
+            for b in w {
+                st = match st {
+                    Some(s) => dfa.transition(s, *b),
+                    None => None,
+                };
+            }
+            (st, dfa.transition_many(dfa.start(), w.iter().copied()))
+        });
+        if let Ok((a, b)) = stepped {
+            if a != b {
+                self.out.fail(
+                    "transition_many is not the iteration of transition",
+                    input.clone(),
+                    json!(format!("{a:?}")),
+                    json!(format!("{b:?}")),
+                );
+                return false;
+            }
+        }
         let Ok((got_match, obs)) = got else {
             self.out.fail("DFA API panicked", input, json!(expected), json!("panic"));
             return false;
@@ -1112,6 +1163,24 @@ impl Ctx {
         };
         let dump = dump_nfa(&nfa);
         let table = dfa_table(&dfa);
+        // `compile(&self)` leaves the automaton as it was and gives the same DFA again; `size()` of both
+        // automata is what the dump / the exploration through the public API show
+        {
+            let again = guarded(|| (dump_nfa(&nfa), show_table(&dfa_table(&nfa.compile()))));
+            let first = (dump.clone(), show_table(&table));
+            if again.as_ref().ok() != Some(&first) {
+                self.out.fail("compiling a second time gives a different automaton", json!({"re": src, "word": "-"}), json!(first.1), json!(again.map(|a| a.1).unwrap_or("panic".into())));
+            }
+            let states_in_dump = dump.split(' ').nth(2).and_then(|n| n.parse::<usize>().ok());
+            if states_in_dump != Some(nfa.size()) || dfa.size() != table.ids.len() {
+                self.out.fail(
+                    "size() disagrees with the states of the automaton",
+                    json!({"re": src, "word": "-"}),
+                    json!({"nfa_states_dumped": states_in_dump, "dfa_states_reachable": table.ids.len()}),
+                    json!({"nfa_size": nfa.size(), "dfa_size": dfa.size()}),
+                );
+            }
+        }
         let alphabet = effective_alphabet(&lang);
         self.out.case(&src, nodes >= 3);
         self.out.hist(&format!("class:{class}"));
